@@ -1,7 +1,7 @@
 """C09 — half-open circuit breaker lets through at most the permitted trial calls."""
 from ..core import graph, Call, peel, leaves, show, N
 from ..util import *
-from .cb_common import CB, CRATE, check_no_evict_in_half_open, check_window_dispatch
+from .cb_common import CB, CRATE, check_no_evict_in_half_open, check_window_dispatch, check_stats_partition
 
 EXPLANATION = (
     "Decides T-RESERVE on the admission function: every path that admits a call outside the Closed arm (the "
@@ -168,6 +168,7 @@ def run(facts, tr, rep):
     # the half-open counters are the count-based ones: a recorder that files trial outcomes elsewhere never lets the
     # closing / re-opening decision see them
     check_window_dispatch(cb, rep, "C09.WINDOW-DISPATCH")
+    check_stats_partition(cb, rep, "C09.STATS-PARTITION")
     # ---- writers of the guard counters: zeroed only by the transition fn, incremented under the lock
     for f in cfields:
         ws = field_writes(facts, cb.circuit_adt, f)
